@@ -15,7 +15,9 @@ import (
 
 // The synthetic transformer works on bit patterns only so that the Lean side reproduces it exactly:
 //
-//	t(x, y) = (bits(y) xor C1, bits(x) xor C2)
+//	t(x, y) = (bits(y) xor C1, bits(x) xor C2), except that a vertex whose low byte of bits(x) is 0x1D is a
+//	FIXED POINT: t(x, y) = (x, y).  (A transformer that moves one vertex nowhere still moves the others:
+//	seeded change C10-f2 returned the input polygon when its first vertex came back unchanged.)
 //
 // kind "p" (pure): fails on a "poison" vertex, i.e. when the low byte of bits(x) is 0xEE, with error id
 // bits(y) & 0xFFFF.  kind "c<k>" (counting): fails on its k-th call (0-based) with error id k.
@@ -23,6 +25,7 @@ const (
 	xorC1     = 0x00000000000a5a50
 	xorC2     = 0x0000000000055aa0
 	poisonLow = 0xEE
+	fixLow    = 0x1D
 )
 
 type tErr struct{ id uint64 }
@@ -51,8 +54,85 @@ func mkTransformer(kind string, log *callLog) proj.Transformer {
 		if kind[0] == 'c' && k == failAt {
 			return math.NaN(), math.NaN(), tErr{uint64(k)}
 		}
+		if bx&0xFF == fixLow {
+			return x, y, nil
+		}
 		return math.Float64frombits(by ^ xorC1), math.Float64frombits(bx ^ xorC2), nil
 	}
+}
+
+// markFixed turns selected vertices of g into fixed points of the synthetic transformer (in place):
+// mode 0 the very first vertex, 1 the first vertex of every ring / line / member, 2 the last vertex of
+// every ring / line / member, 3 first and last of every one, 4 every vertex with probability 1/3,
+// 5 all vertices of the first ring / line / member.
+func markFixed(g geom.Geom, mode int, r *vproto.Rng) {
+	first := true
+	fix := func(p *geom.Point) { p.X = math.Float64frombits(math.Float64bits(p.X)&^0xFF | fixLow) }
+	slice := func(ps []geom.Point, idx int) {
+		for i := range ps {
+			hit := false
+			switch mode {
+			case 0:
+				hit = first && i == 0
+			case 1:
+				hit = i == 0
+			case 2:
+				hit = i == len(ps)-1
+			case 3:
+				hit = i == 0 || i == len(ps)-1
+			case 4:
+				hit = r.Chance(1.0 / 3)
+			default:
+				hit = idx == 0
+			}
+			if hit {
+				fix(&ps[i])
+			}
+		}
+		if len(ps) > 0 {
+			first = false
+		}
+	}
+	var walk func(g geom.Geom)
+	walk = func(g geom.Geom) {
+		switch t := g.(type) {
+		case geom.MultiPoint:
+			slice(t, 0)
+		case geom.LineString:
+			slice(t, 0)
+		case geom.MultiLineString:
+			for i := range t {
+				slice(t[i], i)
+			}
+		case geom.Polygon:
+			for i := range t {
+				slice(t[i], i)
+			}
+		case geom.MultiPolygon:
+			for _, pg := range t {
+				for i := range pg {
+					slice(pg[i], i)
+				}
+			}
+		case *geom.Bounds:
+			if t != nil {
+				c := []geom.Point{t.Min, t.Max}
+				slice(c, 0)
+				t.Min, t.Max = c[0], c[1]
+			}
+		case geom.GeometryCollection:
+			for i := range t {
+				if p, ok := t[i].(geom.Point); ok {
+					c := []geom.Point{p}
+					slice(c, 0)
+					t[i] = c[0]
+				} else if t[i] != nil {
+					walk(t[i])
+				}
+			}
+		}
+	}
+	walk(g)
 }
 
 var scribblePt = geom.Point{X: math.Float64frombits(0x7ff80000deadbeef), Y: math.Float64frombits(0x7ff80000deadbeef)}
@@ -525,6 +605,31 @@ func genGT(r *vproto.Rng, n int, emit func(string)) {
 		geom.GeometryCollection{geom.GeometryCollection{geom.GeometryCollection{geom.LineString{P(1, 2)}}}, bad},
 		geom.GeometryCollection{nil}, geom.GeometryCollection{P(1, 2), nil},
 	}
+	// fixed points of the transformer at the first vertex / the first vertex of every member / the last one:
+	// the other vertices must still be transformed, later failures still reported
+	fixable := func() []geom.Geom {
+		return []geom.Geom{
+			geom.MultiPoint{P(0, 0), P(1, 2), P(3, 4)}, geom.LineString{P(0, 0), P(1, 1), P(2, 5)},
+			geom.MultiLineString{{P(0, 0), P(1, 1)}, {P(3, 3), P(4, 4), P(5, 6)}},
+			geom.Polygon{{P(0, 0), P(2, 1), P(2, 3), P(0, 0)}, {P(1, 1), P(1, 2)}},
+			geom.Polygon{{P(0, 0), P(2, 1), bad, P(0, 0)}, {P(1, 1), bad2}},
+			geom.MultiPolygon{{{P(1, 1), P(2, 1), P(2, 3)}}, {{P(0, 0), P(5, 0), P(5, 5)}, {P(7, 7), bad}}},
+			&geom.Bounds{Min: P(0, 0), Max: P(3, 4)}, &geom.Bounds{Min: P(1, 1), Max: bad},
+			geom.GeometryCollection{P(1, 2), geom.Polygon{{P(0, 0), P(2, 1), P(2, 3)}}, &geom.Bounds{Min: P(0, 0), Max: P(2, 3)},
+				geom.GeometryCollection{geom.MultiPolygon{{{P(0, 0), P(1, 0), bad2}}}}},
+		}
+	}
+	for mode := 0; mode < 6; mode++ {
+		for _, g := range fixable() {
+			markFixed(g, mode, r)
+			nv := nVerts(g)
+			line("p", g)
+			line("p@wx", g)
+			line(fmt.Sprintf("c%d", nv-1), g)
+			line(fmt.Sprintf("c%d", nv), g)
+			line("c1", g)
+		}
+	}
 	for _, g := range corpus {
 		line("nil", g)
 		line("p", g)
@@ -547,6 +652,18 @@ func genGT(r *vproto.Rng, n int, emit func(string)) {
 			gg.big = 1 // one size threshold at exactly one nesting level
 		}
 		gg.prefix = strings.Contains(lay, "x") || r.Chance(0.1)
+		// one line in four: some vertices are fixed points of the transformer (first / first of every member /
+		// last / both / a third of them / the whole first member)
+		fixMode := -1
+		if r.Chance(0.25) {
+			fixMode = r.Intn(6)
+		}
+		line := func(kind string, g geom.Geom) {
+			if fixMode >= 0 {
+				markFixed(g, fixMode, r)
+			}
+			line(kind, g)
+		}
 		switch {
 		case mode == 0:
 			gg.poison = 0
